@@ -64,6 +64,9 @@ def freeze(v):
         return T("dict", tuple(sorted((k, freeze(x)) for k, x in v.items.items())))
     if v is TOP:
         return T("top")
+    nm = getattr(v, "name", None)
+    if type(v).__name__ == "ExtRef" and isinstance(nm, str):
+        return T("ext", (nm,))
     return T("opaque", (type(v).__name__,))
 
 
